@@ -25,6 +25,11 @@ func clientOps(rep *Report, f *icl.File, variant int) {
 	defer srv.Close()
 	cfg := client.NewConfiguration()
 	cfg.BasePath = srv.URL
+	if variant%2 == 1 {
+		// a caller that tags every request of one job with the same trace ID
+		cfg.AddDefaultHeader("X-Request-ID", fmt.Sprintf("job-%d", variant))
+		rep.count("client-op:one-request-id-for-all-calls")
+	}
 	api := client.NewAPIClient(cfg).ImageCashLetterFilesApi
 	ctx := context.Background()
 	js, _ := json.Marshal(f)
